@@ -80,8 +80,9 @@ class C04(Prop):
     time_limit = {'quick': 60, 'thorough': 900}
     rule = ('random adapter graphs (depth 1-4) of ExtendedToOriginalDecorator / TestResultDecorator / Tagger / ThreadsafeForwardingResult / '
             'MultiTestResult / ExtendedToStreamDecorator(+StreamFailFast) over genuine testtools.TestResult / TextTestResult leaves with failfast '
-            'set or not on each leaf before wrapping, and on 30% of the TestResultDecorator / Tagger layers as a plain instance attribute assigned '
-            'before or after the objects above the layer were built; histories of 0-6 tests x 1-2 runs, outcomes as exc_info / details / plain, failfast assigned '
+            'set or not on each leaf before wrapping; in 35% of the graphs also recording results of the 2.6 / 2.7 / Twisted flavours behind an '
+            'ExtendedToOriginalDecorator, half of the 2.6 / Twisted ones with a failfast attribute assigned on them before or after the objects '
+            'above were built; histories of 0-6 tests x 1-2 runs, outcomes as exc_info / details / plain, failfast assigned '
             'on the outer object and stop() at random positions, 10% damaged histories; 30% of the cases also run testtools.run (TestProgram, in '
             'process) on a module of 0-6 real TestCases with chosen outcomes, with and without -f. thorough adds every history of <= 2 tests '
             '(6 outcomes) x {failfast before, after, never} x stop position over 12 graphs. non-trivial = an adapter above a leaf and a failing '
@@ -89,11 +90,12 @@ class C04(Prop):
     assumptions = ['TextTestResult output is parsed into (banner, sections, count, verdict), not compared character by character; times are ignored',
                    'exit status: TestProgram is run in-process with stdout captured (SystemExit caught); unittest loader / argument parsing modelled, not verified',
                    'ExtendedToStreamDecorator / TextTestResult are only used after startTestRun (outside: AttributeError)',
-                   'failfast on a TestResultDecorator / Tagger layer is a plain instance attribute assigned by the harness on that object, either at '
-                   'once or after the whole graph is built (never in the middle of a history); a bare decorator carrying the attribute and reported '
-                   'to directly is out of scope (nothing in a decorator acts on the attribute: it takes effect through the '
-                   'ExtendedToOriginalDecorator that TestCase.run / MultiTestResult / ThreadsafeForwardingResult build around it); the history '
-                   'assigns failfast only on the outer object and only if it has the attribute',
+                   'recording results of the old flavours are the harness\'s own classes (2.6: stop/shouldStop, no failfast; 2.7: failfast and acts on it; '
+                   'Twisted: neither); failfast on a 2.6 / Twisted style result is a plain instance attribute assigned by the harness on that object, '
+                   'either at once or after the whole graph is built (never in the middle of a history); such results only occur behind an '
+                   'ExtendedToOriginalDecorator; per-result clauses (leaf-*, stop-reaches), verdict, summary and not-earlier are stated for graphs '
+                   'over testtools\' own results only (old-flavour results are never reset by startTestRun); the history assigns failfast only on '
+                   'the outer object',
                    'suites stop dispatching: modelled as "no further test after shouldStop" and checked through testtools.run -f on real TestCases']
 
     manifest = {
@@ -101,8 +103,8 @@ class C04(Prop):
                 'ThreadsafeForwardingResult, MultiTestResult over TestResult / TextTestResult leaves and all call histories: wasSuccessful() '
                 'is false exactly when an error, failure or unexpected success was reported since the last startTestRun; every '
                 'TextTestResult writes banner, one section per problem, the number of tests started and OK / FAILED(k) in agreement with it; '
-                'with failfast reading true (also on a directly used ThreadsafeForwardingResult, D15) the first bad outcome sets shouldStop, which then stays set until startTestRun, and is never set earlier (only after stop() or a bad outcome with failfast set somewhere); stop() on any node reaches every result below it; wrapping - and every startTestRun on any wrapper - leaves the failfast of every result alone (D14), and each result by itself '
-                'stops exactly by its own setting or by a fail-fast ExtendedToOriginalDecorator above it (failfast on the result it wraps, or assigned as an attribute on the TestResultDecorator / Tagger layer it wraps, before or after wrapping: in both cases every result below stops at the first bad outcome); exit '
+                'failfast read through any stack is what was set on the result(s) it reads through to - before or after wrapping, also as an attribute assigned on a 2.6 / Twisted style result behind its ExtendedToOriginalDecorator; with failfast reading true (also on a TestResultDecorator / Tagger reported to directly, on a directly used ThreadsafeForwardingResult, D15, and over old-flavour results: then shouldStop is the adapter\'s reading, its own flag if the result has none) the first bad outcome sets shouldStop, which then stays set until startTestRun, and (own results) is never set earlier (only after stop() or a bad outcome with failfast set somewhere); stop() on any node reaches every result below it; wrapping - and every startTestRun on any wrapper - leaves the failfast of every result alone (D14), and each result by itself '
+                'stops exactly by its own setting or by a fail-fast ExtendedToOriginalDecorator above it; exit '
                 'status and summary of testtools.run for a module of test cases with and without -f.  The hand-written model is tied to '
                 'the code by a differential check (random + bounded-exhaustive graphs x histories, TestProgram run in process).',
         'note': 'partial: everything through ExtendedToStreamDecorator + StreamFailFast is validated by the correspondence only (no theorem); the '
@@ -116,7 +118,7 @@ class C04(Prop):
     def observe(self, g):
         ff = getattr(g.root, 'failfast', None)
         return [bool(g.root.wasSuccessful()), bool(g.root.shouldStop), None if ff is None else some(bool(ff)),
-                [bool(l.shouldStop) for l in g.leaves], [bool(l.failfast) for l in g.leaves]]
+                [bool(getattr(l, 'shouldStop', False)) for l in g.leaves], [bool(getattr(l, 'failfast', False)) for l in g.leaves]]
 
     def run_prog(self, ff, kinds):
         from testtools.run import TestProgram
@@ -142,7 +144,7 @@ class C04(Prop):
         try:
             g = R.Graph(shape, genuine=True)
             ff0 = getattr(g.root, 'failfast', None)
-            leaf_ff = [bool(l.failfast) for l in g.leaves]
+            leaf_ff = [bool(getattr(l, 'failfast', False)) for l in g.leaves]
             obs = []
             for c in hist:
                 g.apply(c)
@@ -155,7 +157,7 @@ class C04(Prop):
 
     # ----- generators
     def gen_hist(self, rng, shape, kinds):
-        can_ff = shape[0] not in ('deco', 'tagger') and rng.random() < (0.25 if 'ffbox' in kinds else 0.5)     # half of the histories never assign failfast
+        can_ff = rng.random() < (0.3 if any(k.startswith('fsink') for k in kinds) else 0.5)     # half of the histories never assign failfast
         h = []
 
         def noise(p):
@@ -203,15 +205,14 @@ class C04(Prop):
         inner = ('etod', 'deco', 'tagger', 'tfr', 'tfr', 'multi', 'multi', 'multi', 'e2s')
         leaves = ('tt', 'tt', 'text')
         d = rng.choice([0, 1, 1, 2, 2, 2, 3, 3])
-        shape = R.gen_shape(rng, d, leaves=leaves, inner=inner, ff=rng.random() < 0.7, ffbox=0.3)
-        if shape[0] == 'ffbox' and rng.random() < 0.8:
-            shape = rng.choice([['etod', shape], ['multi', ['etod', shape]], ['tfr', ['etod', shape]], shape[3]])
+        if rng.random() < 0.35:
+            leaves = ('tt', 'tt', 'text', 'old', 'old')       # results of the old flavours behind their adapters
+        shape = R.gen_shape(rng, d, leaves=leaves, inner=inner, ff=rng.random() < 0.7, fattr=0.6)
         if rng.random() < 0.15:
             # a multiplexer over results with different failfast settings, the failfast one usually not first
             def leaf(ff):
                 l = [rng.choice(['tt', 'tt', 'text']), ff]
-                return rng.choice([l, l, ['tfr', ['etod', l]], ['deco', l], ['multi', ['etod', l]],
-                                   ['ffbox', rng.random() < 0.5, rng.random() < 0.5, ['deco', l]]])
+                return rng.choice([l, l, ['tfr', ['etod', l]], ['deco', l], ['multi', ['etod', l]]])
             flags = [rng.random() < 0.25] + [rng.random() < 0.6 for _ in range(rng.choice([1, 1, 2]))]
             shape = ['multi'] + [['etod', leaf(f)] for f in flags]
             if rng.random() < 0.4:
@@ -228,13 +229,12 @@ class C04(Prop):
                   ['multi', ['etod', F], ['etod', T]], ['multi', ['etod', ['text', False]], ['etod', ['tfr', ['etod', F]]]],
                   ['deco', ['etod', T]], ['e2s', ['etod', F]], ['etod', ['multi', ['etod', T], ['etod', F]]],
                   ['multi', ['etod', T], ['etod', F]], ['multi', ['etod', F], ['etod', ['multi', ['etod', F], ['etod', T]]]],
-                  ['multi', ['etod', ['ffbox', True, True, ['deco', F]]], ['etod', F]],
-                  ['tfr', ['etod', ['ffbox', False, True, ['tagger', [1], [], F]]]],
-                  ['etod', ['ffbox', True, False, ['deco', ['multi', ['etod', F], ['etod', T]]]]]]
+                  ['multi', ['etod', ['fsink', True, True, 'py26']], ['etod', F]],
+                  ['tfr', ['etod', ['fsink', False, True, 'twisted']]], ['deco', ['etod', ['fsink', True, False, 'py26']]],
+                  ['tagger', [1], [], T], ['etod', ['sink', 'py27']]]
         outs = [(k, None if k in ('success', 'uxsuccess') else ['reason', [114]] if k == 'skip' else ['exc', 'real']) for k in R.KINDS]
         for s in shapes:
-            can_ff = s[0] not in ('deco', 'tagger')
-            for ffpos in ([None, 0, 1] if can_ff else [None]):
+            for ffpos in [None, 0, 1]:
                 for stoppos in (None, 1, 2):
                     for k1, a1 in outs:
                         for k2, a2 in outs:
@@ -261,7 +261,8 @@ class C04(Prop):
         f = ['depth=%d' % R.depth(shape), 'calls=%s' % (len(hist) // 5 * 5), 'tests=%d' % len([c for c in hist if c[0] == 'add']),
              'runs=%d' % len([c for c in hist if c[0] == 'startTestRun']), 'root:' + shape[0]]
         f += ['node:' + k for k in sorted(set(kinds))]
-        f += ['attr:%s,%s,under-%s' % ('late' if c[1] else 'early', c[2], par) for par, c in self.boxes(shape, 'root')]
+        f += ['attr:%s,%s,%s,under-%s' % (c[3], 'late' if c[1] else 'early', c[2], par) for par, c in self.boxes(shape, 'root')]
+        f.append('leaves:' + ('own' if all(k in ('tt', 'text') for k in kinds if k in ('tt', 'text', 'tbt') or 'sink' in k) else 'with-old-flavours'))
         params = [x[1] for x in self.leaf_shapes(shape)]
         f.append('leaf-failfast:' + ('none' if not any(params) else 'all' if all(params) else 'mixed-first' if params[0] else 'mixed-not-first'))
         if not any(c[0] == 'setFailfast' for c in hist):
@@ -285,14 +286,15 @@ class C04(Prop):
         return sorted(set(f))
 
     def boxes(self, s, parent):
-        out = [(parent, s)] if s[0] == 'ffbox' else []
-        for c in R.children(s):
-            out += self.boxes(c, s[0])
-        return out
+        if s[0] == 'etod' and s[1][0] == 'fsink':
+            return [(parent, s[1])]
+        return [b for c in R.children(s) for b in self.boxes(c, s[0])]
 
     def leaf_shapes(self, s):
         if s[0] in ('tt', 'text'):
             return [s]
+        if s[0] in ('sink', 'fsink'):
+            return [[s[0], s[2] if s[0] == 'fsink' else False]]
         return [l for c in R.children(s) for l in self.leaf_shapes(c)]
 
     def shrink(self, inp):
@@ -308,23 +310,8 @@ class C04(Prop):
                 continue
             yield [shape, h, prog]
         for s in R.shrink_shape(shape):
-            if R.wf_shape(s) and not ({'sink:py26', 'sink:py27', 'sink:twisted', 'sink:ext', 'tbt'} & set(R.kinds_in(s))):
-                if s[0] in ('deco', 'tagger') and any(c[0] == 'setFailfast' for c in hist):
-                    continue
+            if R.wf_shape(s) and not ({'sink:ext', 'tbt'} & set(R.kinds_in(s))):
                 yield [s, hist, prog]
-        for s in self.unbox(shape):
-            yield [s, hist, prog]
-
-
-    def unbox(self, s):
-        """one failfast attribute of a decorator layer assigned early instead of late"""
-        if s[0] == 'ffbox' and s[1]:
-            yield ['ffbox', False] + s[2:]
-        k = s[0]
-        idx = [3] if k in ('tagger', 'ffbox') else list(range(1, len(s))) if k in ('etod', 'deco', 'tfr', 'e2s', 'multi') else []
-        for i in idx:
-            for c in self.unbox(s[i]):
-                yield s[:i] + [c] + s[i + 1:]
 
 
 PROP = C04()
